@@ -145,6 +145,49 @@ func check(c Case) error {
 			return err
 		}
 	}
+	// a record that has been read is the caller's own: annotating one feature of one copy (a qualifier added to the first
+	// feature that has none, else to the first feature) changes that feature of that copy and nothing else - not its
+	// sibling features, not the other copy read from the same text - and the copy writes and reads back as annotated
+	if len(y.Features) > 0 && len(y.Features) == len(want.Features) {
+		k := 0
+		for i, f := range y.Features {
+			if len(f.Attributes) == 0 {
+				k = i
+				break
+			}
+		}
+		if y.Features[k].Attributes == nil {
+			y.Features[k].Attributes = map[string]string{}
+		}
+		y.Features[k].Attributes["verif_added"] = "added after reading"
+		edited := want
+		edited.Features = make([]gbk.ExpectedFeature, len(want.Features))
+		for i, f := range want.Features {
+			g := f
+			g.Attributes = map[string]string{}
+			for a, b := range f.Attributes {
+				g.Attributes[a] = b
+			}
+			edited.Features[i] = g
+		}
+		edited.Features[k].Attributes["verif_added"] = "added after reading"
+		gz2, gzTrees2 := gbk.ExpectedOf(z)
+		if err := compareRoundTrip(fmt.Sprintf("the record read from the file, after a qualifier was added to feature %d of the record parsed from the same text", k), gz2, gzTrees2, want, trees); err != nil {
+			return err
+		}
+		ge, geTrees := gbk.ExpectedOf(y)
+		if err := compareRoundTrip(fmt.Sprintf("the parsed record after a qualifier was added to its feature %d", k), ge, geTrees, edited, trees); err != nil {
+			return err
+		}
+		var y2 poly.Sequence
+		if err := safely("Parse(Build(annotated record))", func() { y2 = genbank.Parse(genbank.Build(y)) }); err != nil {
+			return err
+		}
+		g2, g2Trees := gbk.ExpectedOf(y2)
+		if err := compareRoundTrip(fmt.Sprintf("Parse(Build(x')) where x' is the parsed record with a qualifier added to feature %d", k), g2, g2Trees, edited, trees); err != nil {
+			return err
+		}
+	}
 	// (3) an independent reader recovers the same record from the written text
 	exclude := false
 	if !c.NoExclusion && vk.KnownActive(knownWriter) {
